@@ -562,6 +562,66 @@ func runFF(r *Result, thorough bool, prop string) {
 				}
 				victim.store.Close()
 			}
+			// one signer, many spellings, in the peer set itself: a self-made but internally consistent
+			// response whose validator set lists one genuine validator (known to the victim, the only one
+			// who signs) several times under re-spelled keys next to the other genuine validators, and whose
+			// signature map carries that one signature under every spelling. One distinct signer is not
+			// more than a third of the distinct members: refused, node untouched.
+			for k := 0; k < 2; k++ {
+				gen := []*member{}
+				for _, m := range cl.members {
+					if !m.joiner {
+						gen = append(gen, m)
+					}
+				}
+				if len(gen) < 3 {
+					break
+				}
+				att := gen[rng.Intn(len(gen))]
+				copies := len(gen) + rng.Intn(3) // the attacker appears more often than there are other members
+				extra := []*peers.Peer{}
+				spell := []string{}
+				for i := 0; i < copies; i++ {
+					sp := fmt.Sprintf("%dX", 1+i) + att.hex[2:]
+					if k == 1 && i%2 == 0 {
+						sp = "0x" + strings.ToLower(att.hex[2:]) + ""
+						if i > 0 {
+							sp = fmt.Sprintf("%dx", i) + strings.ToLower(att.hex[2:])
+						}
+					}
+					spell = append(spell, sp)
+					extra = append(extra, peers.NewPeer(sp, "addr", fmt.Sprintf("copy%d", i)))
+				}
+				for _, m := range gen {
+					if m != att {
+						extra = append(extra, m.peer)
+					}
+				}
+				fb, ff := forgeResponseBy([]*participant{{key: att.key, peer: att.peer, hex: att.hex}}, blk0, extra...)
+				var one string
+				for _, v := range fb.Signatures {
+					one = v
+				}
+				for i, sp := range spell {
+					if i%2 == 0 {
+						fb.Signatures[strings.ToUpper(sp)] = one
+					} else {
+						fb.Signatures[sp] = one
+					}
+				}
+				victim := freshVictim()
+				before := victim.digest()
+				cls, det := guarded(func() error { return victim.core.FastForward(fb, ff) })
+				r.Inc("ff_peer_set_with_one_signer_under_many_spellings_"+cls, 1)
+				r.Count(fmt.Sprintf("respelled-peer-set %d %d %d", ri, k, copies), true)
+				if cls == "ok" {
+					r.Violate("impl-violation", fmt.Sprintf("a response whose validator set lists one signer %d times under re-spelled keys (plus %d members who did not sign) was adopted on that one signature", copies+1, len(gen)-1),
+						"respelled-peer-set-adopted", map[string]interface{}{"copies": copies, "spellings": spell})
+				} else if after := victim.digest(); after != before {
+					r.Violate("impl-violation", "refused response (re-spelled peer set) changed the node: "+det, "respelled-refused-not-noop", nil)
+				}
+				victim.store.Close()
+			}
 			// D9: the real Node.fastForward in front of a hostile serving peer
 			nodeLevelFF(r, rng, cl, blk0, frm0, src)
 		} else {
